@@ -364,15 +364,20 @@ CanRead(k)  == k \in {"tcp", "udp", "acc", "pkt", "peer", "file", "adp", "lst", 
 CanWrite(k) == k \in {"tcp", "acc", "adp"}   \* (the harness opens the FIFO of "file" read-only)
 
 \* an asynchronous operation that cannot complete now: interest set, Slot registered
-Park(o, dir) ==
+\* via = 0: the operation was tried and would block; via = 1: it was started when IO.Dispatched had reached
+\* MaxCallbackDispatch and went to the poller untried (another branch of the same functions). Same effect;
+\* the ghost rk keeps the two apart so that Drop/Fire are generated behind both.
+Park(o, dir, via) ==
   LET ob == objs[o] IN
   /\ WithGc /\ ob.st = "live" /\ ~ob.closed /\ ob.refs
   /\ ob.fd >= 0 /\ tab[ob.fd] = o     \* on a descriptor it still owns (not a revived timer)
   /\ IF dir = "r" THEN CanRead(ob.kind) /\ ~ob.evr ELSE CanWrite(ob.kind) /\ ~ob.evw
-  /\ objs' = [objs EXCEPT ![o].evr = IF dir = "r" THEN TRUE ELSE @, ![o].evw = IF dir = "w" THEN TRUE ELSE @]
+  /\ (via = 1 => ob.kind \in {"tcp", "acc", "file", "pkt", "peer", "lst", "udp"})
+  /\ objs' = [objs EXCEPT ![o].evr = IF dir = "r" THEN TRUE ELSE @, ![o].evw = IF dir = "w" THEN TRUE ELSE @,
+                          ![o].rk = IF via = 1 THEN "limit" ELSE @]
   /\ reg' = IF ob.kind = "timer" THEN reg ELSE [reg EXCEPT ![ob.fd] = o]
   /\ mon' = M!Step(mon, Ev("Park", o, ob.kind, "none", 1, 0, dir, 0, Census(tab), Census(tab), {}, {}))
-  /\ hist' = Append(hist, Cmd("Park", o, ob.kind, "none", dir, 1, 0, 0, 0))
+  /\ hist' = Append(hist, [Cmd("Park", o, ob.kind, "none", dir, 1, 0, 0, 0) EXCEPT !.arg = via])
   /\ UNCHANGED <<tab, nmade, nplug>>
 
 \* reachable: the program holds it, or the registry entry of its number points
@@ -428,7 +433,7 @@ Step ==
              \E f \in ({"none"} \cup (IF WithFail THEN FailPoints(objs[o].kind) \ EmFails(objs[o].kind) ELSE {})) :
                \E a \in Args(f) : Rehandshake(o, f, a)
      \/ \E o \in Objs : DoClose(o) \/ TimerCancel(o) \/ NetClose(o) \/ LayerClose(o)
-     \/ \E o \in Objs : \E d \in {"r", "w"} : Park(o, d) \/ Fire(o, d) \/ Drop(o, d)
+     \/ \E o \in Objs : \E d \in {"r", "w"} : Park(o, d, 0) \/ Park(o, d, 1) \/ Fire(o, d) \/ Drop(o, d)
 
 \* a state in which the monitor has rejected is terminal; the rejected script
 \* is emitted like any other and judged on the real code
